@@ -1,7 +1,171 @@
 /-
-Helper lemmas (SpecSound).
+Helper lemmas (SpecSound): what the two spectrum readers accept has the declared (checked) number of values;
+`readText` on the text writer's output.
 -/
 import SfsModel.Lemmas.TextRoundtrip
+import SfsModel.Lemmas.NpyDecode
 namespace Sfs
+
+/-! ## `checkedSize` never exceeds 64 bits -/
+
+theorem readNpy_ok_inv (bytes shape vals : List Nat) (h : readNpy bytes = .ok (shape, vals)) :
+    ∃ (d : NpyDict) (hdr : Nat) (body : List Nat), bytes.length = hdr + body.length ∧ d.shape = shape ∧
+      readValues d.endian d.ty (body.length + 1) body = .ok vals ∧ checkedSize shape = some vals.length := by
+  unfold readNpy at h
+  simp only at h
+  split at h; · cases h
+  split at h; · cases h
+  split at h; · cases h
+  split at h
+  · cases h
+  · rename_i w hw
+    split at h; · cases h
+    split at h; · cases h
+    split at h; · cases h
+    split at h
+    · cases h
+    · rename_i d hd
+      split at h; · cases h
+      split at h
+      · cases h
+      · rename_i vs hvs
+        split at h
+        · rename_i hcs
+          simp only [Except.ok.injEq, Prod.mk.injEq] at h
+          obtain ⟨h1, h2⟩ := h
+          subst h2
+          refine ⟨d, 6 + 2 + w + ofLeBytes (((bytes.drop 6).drop 2).take w), _, ?_, h1, hvs, h1 ▸ hcs⟩
+          simp only [List.length_drop] at *
+          omega
+        · cases h
+
+theorem readNpy_accept (bytes shape vals : List Nat) (h : readNpy bytes = .ok (shape, vals)) :
+    checkedSize shape = some vals.length ∧ vals.length = size shape ∧ size shape < 2 ^ 64 ∧
+      ∃ hdr w, w ∈ [1, 2, 4, 8] ∧ bytes.length = hdr + w * vals.length := by
+  obtain ⟨d, hdr, body, hlen, _, hrv, hcs⟩ := readNpy_ok_inv bytes shape vals h
+  have hsz := checkedSize_eq_some shape _ hcs
+  have hlt := checkedSize_lt shape _ hcs
+  refine ⟨hcs, hsz, by omega, hdr, d.ty.width, by cases d.ty <;> simp [NpyTy.width], ?_⟩
+  rw [readValues_fuel d.endian d.ty body.length body _ rfl (Nat.lt_succ_self _)] at hrv
+  split at hrv
+  · rename_i hmod
+    simp only [Except.ok.injEq] at hrv
+    have hl : vals.length = body.length / d.ty.width := by rw [← hrv]; simp
+    have := Nat.div_add_mod body.length d.ty.width
+    rw [hl, hlen]; omega
+  · cases hrv
+
+
+/-! ## what `readText` accepts -/
+
+theorem mapM_option_length {α β} (f : α → Option β) : ∀ (l : List α) (r : List β), l.mapM f = some r → r.length = l.length
+  | [], r, h => by
+    simp only [List.mapM_nil] at h
+    cases h; rfl
+  | a :: l, r, h => by
+    rw [List.mapM_cons] at h
+    cases hfa : f a with
+    | none => rw [hfa] at h; cases h
+    | some b =>
+      cases hl : l.mapM f with
+      | none => rw [hfa, hl] at h; cases h
+      | some r' =>
+        rw [hfa, hl] at h
+        cases h
+        simp [mapM_option_length f l r' hl]
+
+theorem splitWs_dropWhile_nl (chars : List Char) :
+    splitWs ((chars.dropWhile (· ≠ '\n')).drop 1) = splitWs (chars.dropWhile (· ≠ '\n')) := by
+  cases hd : chars.dropWhile (· ≠ '\n') with
+  | nil => rfl
+  | cons c r =>
+    have hc : c = '\n' := by
+      have h := List.head?_dropWhile_not (p := fun c => decide (c ≠ '\n')) (l := chars)
+      rw [hd] at h
+      simpa using h
+    subst hc
+    rw [List.drop_one, List.tail_cons, splitWs_ws_cons _ _ (by decide)]
+
+theorem readText_accept (bytes shape vals : List Nat) (h : readText bytes = .ok (shape, vals)) :
+    checkedSize shape = some vals.length ∧ vals.length = size shape ∧
+      (splitWs ((bytesToChars bytes).dropWhile (· ≠ '\n'))).length = vals.length := by
+  unfold readText at h
+  simp only at h
+  split at h; · cases h
+  split at h
+  · cases h
+  · rename_i sh hsh
+    split at h
+    · cases h
+    · rename_i vs hvs
+      split at h
+      · rename_i hcs
+        simp only [Except.ok.injEq, Prod.mk.injEq] at h
+        obtain ⟨h1, h2⟩ := h
+        subst h1 h2
+        refine ⟨hcs, checkedSize_eq_some _ _ hcs, ?_⟩
+        rw [← splitWs_dropWhile_nl]
+        exact (mapM_option_length _ _ _ hvs).symm
+      · cases h
+
+
+/-! ## reading back what the text writer wrote -/
+
+theorem spec_joinNats_chars (sep : List Char) : ∀ (shape : List Nat), ∀ c ∈ joinNats sep shape, c.isDigit = true ∨ c ∈ sep
+  | [], c, hc => by simp [joinNats] at hc
+  | [a], c, hc => .inl (showNat_isDigit a c (by simpa [joinNats] using hc))
+  | a :: b :: rest, c, hc => by
+    rw [joinNats_cons_cons] at hc
+    simp only [List.mem_append] at hc
+    rcases hc with (hc | hc) | hc
+    · exact .inl (showNat_isDigit a c hc)
+    · exact .inr hc
+    · exact spec_joinNats_chars sep (b :: rest) c hc
+
+theorem textHeader_no_nl (shape : List Nat) : ∀ c ∈ textHeader shape, (decide (c ≠ '\n')) = true := by
+  intro c hc
+  unfold textHeader at hc
+  simp only [List.mem_append] at hc
+  rcases hc with (hc | hc) | hc
+  · revert c; decide
+  · rcases spec_joinNats_chars _ shape c hc with h | h
+    · have := isDigit_toNat h
+      simp only [decide_eq_true_eq]
+      rintro rfl
+      simp at this
+    · simp only [List.mem_singleton] at h; subst h; decide
+  · simp only [List.mem_singleton] at hc; subst hc; decide
+
+/-- `readText` on the writer's output, up to the three remaining checks. -/
+theorem readText_written (shape bits : List Nat) (p : Nat) (hne : shape ≠ []) (hb : ∀ v ∈ shape, v < 2 ^ 64) :
+    readText (asciiBytes (writeText shape bits p)) =
+      if !allAscii (asciiBytes (writeText shape bits p)) then .error .invalid
+      else match (bits.map (fun b => fmtFixed b p)).mapM parseF64 with
+        | none => .error .invalid
+        | some vals => if checkedSize shape = some vals.length then .ok (shape, vals) else .error .invalid := by
+  obtain ⟨line, hw, htok⟩ := writeText_tokens shape bits p (fun b => fmtFixed_tok b p)
+  unfold readText
+  simp only [bytesToChars_asciiBytes]
+  have hsplit := takeWhile_append_stop (fun c => decide (c ≠ '\n')) (textHeader shape) ('\n' :: (line ++ ['\n']))
+    (textHeader_no_nl shape) (by intro x hx; simp at hx; subst hx; decide)
+  have hw' : writeText shape bits p = textHeader shape ++ '\n' :: (line ++ ['\n']) := by
+    rw [hw]; simp
+  rw [hw', hsplit.1, hsplit.2, parseTextHeader_textHeader shape hne hb]
+  simp only [List.drop_one, List.tail_cons, htok]
+  rfl
+
+theorem readText_written_reject (shape bits : List Nat) (p : Nat) (hne : shape ≠ []) (hb : ∀ v ∈ shape, v < 2 ^ 64)
+    (hsz : checkedSize shape ≠ some bits.length) :
+    ∃ e, readText (asciiBytes (writeText shape bits p)) = .error e := by
+  rw [readText_written shape bits p hne hb]
+  split
+  · exact ⟨_, rfl⟩
+  · split
+    · exact ⟨_, rfl⟩
+    · rename_i vals hv
+      have hl := mapM_option_length _ _ _ hv
+      rw [List.length_map] at hl
+      rw [hl, if_neg hsz]
+      exact ⟨_, rfl⟩
 
 end Sfs
